@@ -83,7 +83,8 @@ impl<T: Ord> MemoryBoundedQueue<T> {
 
     /// Push an item to the queue with its size
     ///
-    /// **BLOCKS** if adding this item would exceed capacity.
+    /// **BLOCKS** if adding this item would exceed capacity (an item that alone exceeds the
+    /// capacity waits until the queue is empty and is then admitted).
     /// Returns error if queue is closed.
     ///
     /// # Arguments
@@ -100,8 +101,13 @@ impl<T: Ord> MemoryBoundedQueue<T> {
     pub fn push(&self, item: T, size_bytes: usize) -> Result<(), PushError> {
         let mut inner = self.inner.lock().unwrap();
 
-        // Wait while queue would be too full
-        while inner.current_size + size_bytes > self.capacity_bytes && !inner.closed {
+        // Wait while queue would be too full. An item larger than the whole capacity can never
+        // "fit": it is admitted once the queue is empty (C++ AGC's CBoundedPQueue likewise
+        // admits into a non-full queue), otherwise this push would block forever.
+        while inner.current_size + size_bytes > self.capacity_bytes
+            && !inner.items.is_empty()
+            && !inner.closed
+        {
             #[cfg(ragc_verif)]
             ragc_common::verif::event("q_wait_full", size_bytes as u64, inner.items.len() as u64, inner.current_size as u64);
             inner = self.not_full.wait(inner).unwrap();
